@@ -77,6 +77,8 @@ func checkC11(p *Prog, r *Report) {
 		fn, root := w.fn, w.root
 		p.InScope(root, func() { c11StoreFn(p, r, lsC11, fn, root, &nStores, &nLoads, &nRets, &nDeref) })
 	}
+	r.Rule("O7", "no value handed out points into live state: the address of a field of a long-lived object (e.g. a running counter) is never returned or stored into another object — data built from such a pointer changes after it was handed out")
+	fieldAddressEscapes(p, r, "O7", nil, "spine")
 	r.Floor("O1", "stores to FunctionData.data", nStores, 2)
 	r.Floor("O2", "loads of FunctionData.data", nLoads, 3)
 	c11Rest(p, r, lsC11)
@@ -334,7 +336,16 @@ func pointerEscapes(p *Prog, v ssa.Value, seen map[ssa.Value]bool, depth int) st
 				continue
 			}
 			if c := x.Call.StaticCallee(); c != nil && p.IsRepoFn(c) {
-				continue
+				// as the receiver of a repository method: fine. As an ordinary argument the callee may keep it
+				// (createCmd puts its argument into the command it returns): accepted only if the callee neither
+				// returns nor stores anything that could carry it
+				if c.Signature.Recv() != nil && len(x.Call.Args) > 0 && x.Call.Args[0] == v {
+					continue
+				}
+				if !calleeMayRetain(c) {
+					continue
+				}
+				return "is passed to " + FnName(originOf(c)) + ", which returns or stores data built from its arguments"
 			}
 			return "is passed to " + Path(x)
 		}
@@ -404,4 +415,68 @@ func lastStoreIsNil(load *ssa.UnOp) bool {
 		}
 	}
 	return last != nil && isNilConst(last.Val)
+}
+
+// calleeMayRetain: the function has a result that can carry a pointer (pointer,
+// interface, struct, slice, map) or stores into the heap — a conservative
+// "may keep its argument".
+func calleeMayRetain(c *ssa.Function) bool {
+	res := c.Signature.Results()
+	for i := 0; i < res.Len(); i++ {
+		switch res.At(i).Type().Underlying().(type) {
+		case *types.Basic:
+		default:
+			if !errLike(res.At(i).Type()) {
+				return true
+			}
+		}
+	}
+	for _, b := range c.Blocks {
+		for _, ins := range b.Instrs {
+			if st, ok := ins.(*ssa.Store); ok {
+				if _, isLocal := st.Addr.(*ssa.Alloc); !isLocal {
+					return true
+				}
+			}
+		}
+	}
+	return false
+}
+
+// noAliasIn (C11-O1, shared with C17): the function-data store never keeps an
+// object its caller still holds — what is stored is a private copy.
+func noAliasIn(p *Prog, r *Report, rule string) {
+	n := 0
+	seen := map[*ssa.Function]bool{}
+	for _, fn := range p.RepoFns("spine") {
+		if !isFunctionDataFn(fn) || seen[originOf(fn)] {
+			continue
+		}
+		seen[originOf(fn)] = true
+		idx := 0
+		for _, b := range fn.Blocks {
+			for _, ins := range b.Instrs {
+				st, ok := ins.(*ssa.Store)
+				if !ok {
+					continue
+				}
+				fa, ok := st.Addr.(*ssa.FieldAddr)
+				if !ok || fieldOfAddr(fa) == nil || fieldOfAddr(fa).Name() != "data" {
+					continue
+				}
+				n++
+				idx++
+				okIn := true
+				var srcs []string
+				for _, o := range ptrOrigins(st.Val) {
+					srcs = append(srcs, Path(o))
+					if _, isParam := o.(*ssa.Parameter); isParam || paramIndex(fn, o) >= 0 {
+						okIn = false
+					}
+				}
+				r.Check(rule, fmt.Sprintf("%s|store#%d", FnName(originOf(fn)), idx), okIn, p.InstrPos(st), fmt.Sprintf("stored value comes from %v (a caller's object kept in the store is written under the store's lock while the caller, or an event handler that got it, reads it without)", srcs))
+			}
+		}
+	}
+	r.Floor(rule, "stores to FunctionData.data", n, 2)
 }
